@@ -8,6 +8,7 @@ import Gnet.Driver.Pool
 import Gnet.Driver.Msq
 import Gnet.Driver.Wake
 import Gnet.Driver.Sockaddr
+import Gnet.Driver.Reactor
 
 def main (args : List String) : IO UInt32 := do
   match args with
@@ -21,4 +22,5 @@ def main (args : List String) : IO UInt32 := do
   | ["msq"] => Gnet.Driver.MsqD.main; return 0
   | ["wake"] => Gnet.Driver.WakeD.main; return 0
   | ["sockaddr"] => Gnet.Driver.SockaddrD.main; return 0
+  | ["reactor"] => Gnet.Driver.ReactorD.main; return 0
   | _ => IO.eprintln "usage: gnetmodel <component>"; return 2
